@@ -28,6 +28,7 @@ mod c10;
 mod c13;
 mod c14;
 mod c15;
+mod c17;
 mod c18;
 mod sysop;
 
@@ -86,6 +87,7 @@ fn run_op(op: &str, seed: u64, n: u64, out: &mut out::Out) {
         "c13" => c13::run(seed, n, out),
         "c14" => c14::run(seed, n, out),
         "c15" => c15::run(seed, n, out),
+        "c17" => c17::run(seed, n, out),
         "c18" => c18::run(seed, n, out),
         "sys" => sysop::run(seed, n, out),
         other => panic!("unknown VERIF_OP {}", other),
